@@ -14,6 +14,7 @@ type place struct {
 	isStruct bool     // of type S (fields A, B), otherwise i32
 	cells    []string // storage cells it covers, in print order
 	arrStore bool     // a direct write is a store to an element of a fixed [N]i32 array
+	ty       string   // scalar type of the place when it is not i32
 }
 
 type pair struct {
@@ -30,6 +31,14 @@ type pair struct {
 	// "chain-else" (trailing else of an else-if chain), "while", "for", "match". The loan must
 	// stay alive up to that use wherever it is written.
 	ustyle string
+	// astyle: how the direct accesses to a place (R, M, T) are spelled. "method": on a place of
+	// type S through methods (R: two getters declared on &S, M and T: methods declared on &'S,
+	// which borrow the receiver mutably for the call). "closure": R and M happen inside a
+	// function literal that is created and called on the spot (closures capture by reference).
+	// "index-store", "index-field", "index-inner": a read of an i32 place happens as the index of
+	// an element place that is not the outermost index of a plain read: `mm[x] = 7;` on a map,
+	// `ef[x % 2].X` under a field selector, `gg[x % 2][0]` as the inner index.
+	astyle string
 }
 
 const prelude = `import "std/io";
@@ -39,6 +48,11 @@ fn poke(r: &'i32) { let v: i32 = r; r = v + 1; }
 fn pokeS(r: &'S) { let v: i32 = r.B; r.B = v + 1; }
 fn ids(p: &i32) -> &i32 { return p; }
 fn idm(p: &'i32) -> &'i32 { return p; }
+fn poke64(r: &'i64) { let v: i64 = r; r = v + 1; }
+fn (q: &S) getA() -> i32 { return q.A; }
+fn (q: &S) getB() -> i32 { return q.B; }
+fn (q: &'S) setAB(a: i32, b: i32) { q.A = a; q.B = b; }
+fn (q: &'S) pokeB() { let v: i32 = q.B; q.B = v + 1; }
 `
 
 var preludeLines = strings.Count(prelude, "\n")
@@ -51,6 +65,7 @@ func allPairs() []pair {
 	a0 := place{expr: "a[0]", path: []string{"a", "[0]"}, cells: []string{"a0"}, arrStore: true}
 	a1 := place{expr: "a[1]", path: []string{"a", "[1]"}, cells: []string{"a1"}, arrStore: true}
 	e0x := place{expr: "e[0].X", path: []string{"e", "[0]", "X"}, cells: []string{"e0x"}}
+	x64 := place{expr: "x", path: []string{"x"}, cells: []string{"x"}, ty: "i64"}
 	letX := "let x: i32 = 1;"
 	letS := "let s: S = { .A = 1, .B = 2 };"
 	letA := "let a: [2]i32 = [1, 2];"
@@ -58,33 +73,48 @@ func allPairs() []pair {
 	iS := map[string]int64{"s.A": 1, "s.B": 2}
 	iA := map[string]int64{"a0": 1, "a1": 2}
 	return []pair{
-		{"same-var", letX, map[string]int64{"x": 1}, [2]place{x, x}, "", ""},
-		{"disjoint-fields", letS, iS, [2]place{sA, sB}, "", ""},
-		{"parent-child", letS, iS, [2]place{s, sA}, "", ""},
-		{"same-field", letS, iS, [2]place{sA, sA}, "", ""},
-		{"same-index", letA, iA, [2]place{a0, a0}, "", ""},
-		{"diff-index", letA, iA, [2]place{a0, a1}, "", ""},
-		{"elem-field", letE, map[string]int64{"e0x": 1}, [2]place{e0x, e0x}, "", ""},
-		{"child-parent", letS, iS, [2]place{sA, s}, "", ""},
+		{"same-var", letX, map[string]int64{"x": 1}, [2]place{x, x}, "", "", ""},
+		{"disjoint-fields", letS, iS, [2]place{sA, sB}, "", "", ""},
+		{"parent-child", letS, iS, [2]place{s, sA}, "", "", ""},
+		{"same-field", letS, iS, [2]place{sA, sA}, "", "", ""},
+		{"same-index", letA, iA, [2]place{a0, a0}, "", "", ""},
+		{"diff-index", letA, iA, [2]place{a0, a1}, "", "", ""},
+		{"elem-field", letE, map[string]int64{"e0x": 1}, [2]place{e0x, e0x}, "", "", ""},
+		{"child-parent", letS, iS, [2]place{sA, s}, "", "", ""},
 		// the same places with the other spellings of a write through a reference
-		{"same-var/inc", letX, map[string]int64{"x": 1}, [2]place{x, x}, "inc", ""},
-		{"same-var/dec", letX, map[string]int64{"x": 1}, [2]place{x, x}, "dec", ""},
-		{"same-var/add", letX, map[string]int64{"x": 1}, [2]place{x, x}, "add", ""},
-		{"same-var/self", letX, map[string]int64{"x": 1}, [2]place{x, x}, "self", ""},
-		{"disjoint-fields/inc", letS, iS, [2]place{sA, sB}, "inc", ""},
-		{"disjoint-fields/add", letS, iS, [2]place{sA, sB}, "add", ""},
-		{"elem-field/inc", letE, map[string]int64{"e0x": 1}, [2]place{e0x, e0x}, "inc", ""},
-		{"same-index/dec", letA, iA, [2]place{a0, a0}, "dec", ""},
+		{"same-var/inc", letX, map[string]int64{"x": 1}, [2]place{x, x}, "inc", "", ""},
+		{"same-var/dec", letX, map[string]int64{"x": 1}, [2]place{x, x}, "dec", "", ""},
+		{"same-var/add", letX, map[string]int64{"x": 1}, [2]place{x, x}, "add", "", ""},
+		{"same-var/self", letX, map[string]int64{"x": 1}, [2]place{x, x}, "self", "", ""},
+		{"disjoint-fields/inc", letS, iS, [2]place{sA, sB}, "inc", "", ""},
+		{"disjoint-fields/add", letS, iS, [2]place{sA, sB}, "add", "", ""},
+		{"elem-field/inc", letE, map[string]int64{"e0x": 1}, [2]place{e0x, e0x}, "inc", "", ""},
+		{"same-index/dec", letA, iA, [2]place{a0, a0}, "dec", "", ""},
 		// uses of the references inside control constructs
-		{"same-var/in-if", letX + " let t: i32 = 1;", map[string]int64{"x": 1}, [2]place{x, x}, "", "if"},
-		{"same-var/in-else", letX + " let t: i32 = 1;", map[string]int64{"x": 1}, [2]place{x, x}, "", "else"},
-		{"same-var/in-elseif", letX + " let t: i32 = 1;", map[string]int64{"x": 1}, [2]place{x, x}, "", "elseif"},
-		{"same-var/in-chain-else", letX + " let t: i32 = 1;", map[string]int64{"x": 1}, [2]place{x, x}, "", "chain-else"},
-		{"same-var/in-while", letX + " let t: i32 = 1;", map[string]int64{"x": 1}, [2]place{x, x}, "", "while"},
-		{"same-var/in-for", letX + " let t: i32 = 1;", map[string]int64{"x": 1}, [2]place{x, x}, "", "for"},
-		{"same-var/in-match", letX + " let t: i32 = 1;", map[string]int64{"x": 1}, [2]place{x, x}, "", "match"},
-		{"same-field/in-elseif", letS + " let t: i32 = 1;", iS, [2]place{sA, sA}, "", "elseif"},
-		{"parent-child/in-match", letS + " let t: i32 = 1;", iS, [2]place{s, sA}, "", "match"},
+		{"same-var/in-if", letX + " let t: i32 = 1;", map[string]int64{"x": 1}, [2]place{x, x}, "", "if", ""},
+		{"same-var/in-else", letX + " let t: i32 = 1;", map[string]int64{"x": 1}, [2]place{x, x}, "", "else", ""},
+		{"same-var/in-elseif", letX + " let t: i32 = 1;", map[string]int64{"x": 1}, [2]place{x, x}, "", "elseif", ""},
+		{"same-var/in-chain-else", letX + " let t: i32 = 1;", map[string]int64{"x": 1}, [2]place{x, x}, "", "chain-else", ""},
+		{"same-var/in-while", letX + " let t: i32 = 1;", map[string]int64{"x": 1}, [2]place{x, x}, "", "while", ""},
+		{"same-var/in-for", letX + " let t: i32 = 1;", map[string]int64{"x": 1}, [2]place{x, x}, "", "for", ""},
+		{"same-var/in-match", letX + " let t: i32 = 1;", map[string]int64{"x": 1}, [2]place{x, x}, "", "match", ""},
+		{"same-field/in-elseif", letS + " let t: i32 = 1;", iS, [2]place{sA, sA}, "", "elseif", ""},
+		{"parent-child/in-match", letS + " let t: i32 = 1;", iS, [2]place{s, sA}, "", "match", ""},
+		// an i64 place written through the reference from a narrower (i32) variable: the old
+		// value has other upper bytes than the extension of the new one
+		{"same-var64/narrow", "let x: i64 = -4294967297;", map[string]int64{"x": -4294967297}, [2]place{x64, x64}, "narrow", "", ""},
+		{"same-var/index-store", letX + " let mm: map[i32]i32 = { 1 => 10 };", map[string]int64{"x": 1}, [2]place{x, x}, "", "", "index-store"},
+		{"same-var/index-field", letX + " let ef: []E = [{ .X = 1, .Y = 2 }, { .X = 1, .Y = 4 }];", map[string]int64{"x": 1}, [2]place{x, x}, "", "", "index-field"},
+		{"same-var/index-inner", letX + " let gg: [][]i32 = [[1, 2], [1, 4]];", map[string]int64{"x": 1}, [2]place{x, x}, "", "", "index-inner"},
+		{"disjoint-fields/index-store", letS + " let mm: map[i32]i32 = { 1 => 10 };", iS, [2]place{sA, sB}, "", "", "index-store"},
+		{"parent-child/index-field", letS + " let ef: []E = [{ .X = 1, .Y = 2 }, { .X = 1, .Y = 4 }];", iS, [2]place{s, sA}, "", "", "index-field"},
+		// direct accesses spelled as method calls / inside closures
+		{"same-struct/method", letS, iS, [2]place{s, s}, "", "", "method"},
+		{"parent-child/method", letS, iS, [2]place{s, sA}, "", "", "method"},
+		{"child-parent/method", letS, iS, [2]place{sA, s}, "", "", "method"},
+		{"same-var/closure", letX, map[string]int64{"x": 1}, [2]place{x, x}, "", "", "closure"},
+		{"disjoint-fields/closure", letS, iS, [2]place{sA, sB}, "", "", "closure"},
+		{"parent-child/closure", letS, iS, [2]place{s, sA}, "", "", "closure"},
 	}
 }
 
@@ -111,6 +141,14 @@ func (p pair) wrapUse(l string, j int) string {
 
 // takes: does pair p explore sequence s?
 func (p pair) takes(s seq) bool {
+	if p.astyle != "" {
+		for _, e := range s {
+			if p.styled(e) {
+				return true
+			}
+		}
+		return false
+	}
 	if p.ustyle != "" {
 		for _, e := range s {
 			if e.isUse() {
@@ -126,6 +164,20 @@ func (p pair) takes(s seq) bool {
 		if e.isWriteThru() {
 			return true
 		}
+	}
+	return false
+}
+
+// styled: is event e spelled differently under the pair's access style?
+func (p pair) styled(e ev) bool {
+	if strings.HasPrefix(p.astyle, "index-") {
+		return (e == R1 || e == R2) && !p.p[e.idx()].isStruct
+	}
+	switch e {
+	case R1, R2, M1, M2:
+		return p.astyle == "closure" || (p.astyle == "method" && p.p[e.idx()].isStruct)
+	case T1m:
+		return p.astyle == "method" && p.p[0].isStruct
 	}
 	return false
 }
@@ -164,6 +216,9 @@ func body(p pair, s seq) []string {
 			}
 			r := fmt.Sprintf("r%d", i+1)
 			ty := "i32"
+			if pl.ty != "" {
+				ty = pl.ty
+			}
 			if pl.isStruct {
 				ty = "S"
 			}
@@ -197,6 +252,8 @@ func body(p pair, s seq) []string {
 						l = fmt.Sprintf("%s += %d;", r, n)
 					case "self":
 						l = fmt.Sprintf("%s = %s + %d;", r, r, n)
+					case "narrow":
+						l = fmt.Sprintf("let q%d: i32 = %d; %s = q%d;", j, n, r, j)
 					default:
 						l = fmt.Sprintf("%s = %d;", r, n)
 					}
@@ -216,12 +273,32 @@ func body(p pair, s seq) []string {
 			case T1m:
 				if pl.isStruct {
 					l = fmt.Sprintf("pokeS(&'%s);", pl.expr)
+				} else if pl.ty == "i64" {
+					l = fmt.Sprintf("poke64(&'%s);", pl.expr)
 				} else {
 					l = fmt.Sprintf("poke(&'%s);", pl.expr)
 				}
 			}
 			if e.isUse() && p.ustyle != "" {
 				l = p.wrapUse(l, j)
+			}
+			if p.styled(e) {
+				switch {
+				case p.astyle == "index-store":
+					l = fmt.Sprintf("mm[%s] = 7;", pl.expr)
+				case p.astyle == "index-field":
+					l = fmt.Sprintf("io::Println(ef[%s %% 2].X);", pl.expr)
+				case p.astyle == "index-inner":
+					l = fmt.Sprintf("io::Println(gg[%s %% 2][0]);", pl.expr)
+				case p.astyle == "closure":
+					l = fmt.Sprintf("let f%d := fn() { %s }; f%d();", j, l, j)
+				case e == R1 || e == R2:
+					l = fmt.Sprintf("io::Println(%s.getA()); io::Println(%s.getB());", pl.expr, pl.expr)
+				case e == M1 || e == M2:
+					l = fmt.Sprintf("%s.setAB(%d, %d);", pl.expr, n, n+1)
+				case e == T1m:
+					l = fmt.Sprintf("%s.pokeB();", pl.expr)
+				}
 			}
 		} else if e == Open {
 			l = "{"
@@ -267,6 +344,13 @@ func expected(p pair, s seq) []string {
 		n := int64(10 * (j + 1))
 		switch e {
 		case U1, U2, R1, R2:
+			if strings.HasPrefix(p.astyle, "index-") && p.styled(e) {
+				// the read is an index: index-store prints nothing, the others element 1
+				if p.astyle != "index-store" {
+					out = append(out, "1")
+				}
+				break
+			}
 			for _, c := range pl.cells {
 				out = append(out, fmt.Sprint(cell[c]))
 			}
